@@ -9,6 +9,7 @@ import (
 	"encoding/hex"
 	"errors"
 	"fmt"
+	"io"
 	"io/fs"
 	"os"
 	"os/exec"
@@ -59,6 +60,33 @@ type Opt struct {
 	// MaxMemKB > 0: run with this limit on the address space (ulimit -v, in KiB): input that makes the
 	// command allocate without bound ends in a runtime fault instead of exhausting the machine
 	MaxMemKB int
+	// StdinPieces > 1: stdin is a pipe into which the text is written in that many pieces with short pauses in
+	// between (a script that prints its output bit by bit), instead of all at once
+	StdinPieces int
+}
+
+// slowReader hands out the text in pieces, pausing before every piece but the first.
+type slowReader struct {
+	pieces []string
+	next   int
+}
+
+func (r *slowReader) Read(p []byte) (int, error) {
+	for r.next < len(r.pieces) && r.pieces[r.next] == "" {
+		r.next++
+	}
+	if r.next >= len(r.pieces) {
+		return 0, io.EOF
+	}
+	if r.next > 0 {
+		time.Sleep(40 * time.Millisecond)
+	}
+	n := copy(p, r.pieces[r.next])
+	r.pieces[r.next] = r.pieces[r.next][n:]
+	if r.pieces[r.next] == "" {
+		r.next++
+	}
+	return n, nil
 }
 
 // Run executes the binary with args. Exit is -1 if killed by a signal.
@@ -99,6 +127,20 @@ func Run(o Opt, args ...string) Result {
 		"LANG=C",
 	}, o.Env...)
 	cmd.Stdin = strings.NewReader(o.Stdin)
+	if o.StdinPieces > 1 && len(o.Stdin) >= o.StdinPieces {
+		// cut at line ends where possible
+		var pieces []string
+		rest := o.Stdin
+		for i := o.StdinPieces; i > 1; i-- {
+			cut := len(rest) / i
+			if j := strings.IndexByte(rest[cut:], '\n'); j >= 0 {
+				cut += j + 1
+			}
+			pieces = append(pieces, rest[:cut])
+			rest = rest[cut:]
+		}
+		cmd.Stdin = &slowReader{pieces: append(pieces, rest)}
+	}
 	var so, se bytes.Buffer
 	cmd.Stdout = &so
 	cmd.Stderr = &se
